@@ -30,6 +30,10 @@ type access struct {
 	atomic bool
 	locks  []*Value
 	where  string
+	// epoch: how many goroutines the path had started when the access was made
+	// (the latest such access of its kind is kept). An access of a creator made
+	// before it started goroutine #N happens-before everything #N does.
+	epoch int
 }
 
 func (e *Exec) inHarnessCode() bool {
@@ -50,8 +54,11 @@ func (f *footprint) record(e *Exec, key interface{}, write, atomic bool) {
 	}
 	list := f.acc[key]
 	// keep one representative per (origin, kind) to bound the log
-	for _, a := range list {
+	for i, a := range list {
 		if a.origin == e.origin && a.write == write && a.atomic == atomic && len(a.locks) == len(f.held) {
+			if e.goSeq > a.epoch {
+				list[i].epoch, list[i].where = e.goSeq, e.where()
+			}
 			return
 		}
 	}
@@ -61,7 +68,7 @@ func (f *footprint) record(e *Exec, key interface{}, write, atomic bool) {
 			locks = append(locks, l)
 		}
 	}
-	f.acc[key] = append(list, access{origin: e.origin, write: write, atomic: atomic, locks: locks, where: e.where()})
+	f.acc[key] = append(list, access{origin: e.origin, write: write, atomic: atomic, locks: locks, where: e.where(), epoch: e.goSeq})
 	f.n++
 }
 
@@ -120,12 +127,32 @@ func (f *footprint) conflicts() []string {
 				if common(a.locks, b.locks) {
 					continue
 				}
+				if startedAfter(a, b) || startedAfter(b, a) {
+					continue
+				}
 				out = append(out, fmt.Sprintf("%s(%s,%s) vs %s(%s,%s)", a.origin, rw(a.write), a.where, b.origin, rw(b.write), b.where))
 			}
 		}
 	}
 	sort.Strings(out)
 	return out
+}
+
+// startedAfter: b belongs to a goroutine (or a descendant of one) that a's
+// origin started after making the access a — the go statement orders them.
+func startedAfter(a, b access) bool {
+	if !strings.HasPrefix(b.origin, a.origin+"/go#") {
+		return false
+	}
+	rest := b.origin[len(a.origin)+len("/go#"):]
+	n := 0
+	for _, c := range rest {
+		if c < '0' || c > '9' {
+			break
+		}
+		n = n*10 + int(c-'0')
+	}
+	return a.epoch < n
 }
 
 func rw(w bool) string {
